@@ -401,6 +401,35 @@ Proof.
   intros rules H. destruct (ops_http_options_order rules) as [E _]. rewrite E. now apply filter_NoDup_map.
 Qed.
 
+(* the path prefix is the version segment of the package, whatever it is called *)
+Lemma last_segment_nodot : forall v, contains dot v = false -> last_segment v = v.
+Proof. intros v H. destruct v as [|c v]; [reflexivity|]. cbn [last_segment]. now rewrite H. Qed.
+
+Lemma ops_path_prefix_spec : forall p v,
+  contains dot v = false ->
+  ops_path_prefix (p ++ "." ++ v) = v /\ ops_path_prefix v = v /\
+  forall name, default_poll_path (p ++ "." ++ v) name = "/" ++ v ++ "/" ++ name.
+Proof.
+  intros p v H.
+  assert (A : last_segment (p ++ "." ++ v) = v).
+  { induction p as [|c p IH].
+    - change ("" ++ "." ++ v)%string with (String dot v). cbn [last_segment contains].
+      rewrite Ascii.eqb_refl. simpl. now apply last_segment_nodot.
+    - change ((String c p) ++ "." ++ v)%string with (String c (p ++ "." ++ v)). cbn [last_segment].
+      assert (C : contains dot (String c (p ++ "." ++ v)) = true).
+      { cbn [contains]. rewrite contains_dot_app_r. apply orb_true_r. }
+      rewrite C. exact IH. }
+  unfold default_poll_path, ops_path_prefix. repeat split.
+  - exact A.
+  - now apply last_segment_nodot.
+  - intro name. now rewrite A.
+Qed.
+
+Example ex_path_prefix :
+  ops_path_prefix "acme.jobs.v2" = "v2" /\ ops_path_prefix "google.cloud.batchy.v1beta1" = "v1beta1" /\ ops_path_prefix "simple" = "simple" /\
+  default_poll_path "acme.jobs.v2" "projects/p/operations/op-1" = "/v2/projects/p/operations/op-1".
+Proof. repeat split. Qed.
+
 Example ex_ops_http_options :
   let get := mkHR "google.longrunning.Operations.GetOperation"
                [Some (mkB "get" "/v1/{name=projects/*/operations/*}" ""); Some (mkB "get" "/v1/{name=organizations/*/operations/*}" "");
